@@ -443,6 +443,18 @@ def vp(id, prop, expect, patches, note=""):
     V.append({"id": id, "prop": prop, "expect": expect, "note": note, "edits": [], "patch": patches})
 
 NEUTRAL = {
+    'neutral/setT/n1': ['C10', 'C02', 'C14'],
+    'neutral/setT/n10': ['C15', 'C14'],
+    'neutral/setT/n11': ['C03', 'C08'],
+    'neutral/setT/n12': ['C14', 'C16', 'C17'],
+    'neutral/setT/n2': ['C05', 'C06'],
+    'neutral/setT/n3': ['C11'],
+    'neutral/setT/n4': ['C19'],
+    'neutral/setT/n5': ['C17'],
+    'neutral/setT/n6': ['C05', 'C06', 'C10'],
+    'neutral/setT/n7': ['C05', 'C15'],
+    'neutral/setT/n8': ['C07', 'C18'],
+    'neutral/setT/n9': ['C17', 'C18'],
     'neutral/setS/n1': ['C01', 'C03', 'C04'],
     'neutral/setS/n10': ['C04', 'C08'],
     'neutral/setS/n11': ['C05', 'C06'],
